@@ -3086,6 +3086,13 @@ class Mailbox:
         else:
             raise MailboxExists(f"Destination mailbox '{new_name}' exists")
 
+        # A mailbox can not be moved underneath itself.
+        #
+        if new_name.startswith(f"{mbox.name}/"):
+            raise InvalidMailbox(
+                f"Can not rename '{old_name}' to its own inferior '{new_name}'"
+            )
+
         # If the new name has superior hierarchical names that do not exist
         # create them first (rfc3501 6.3.5)
         #
